@@ -1,6 +1,6 @@
 (** Model A, part 3: a concrete [json.loads] for the texts [Codec.dumps] produces (and for any
     other RFC 8259 text over the same AST: ints, floats kept as their literal text, strings
-    with the standard escapes and surrogate pairs, arrays, objects), plus the decoder that
+    with the standard escapes and surrogate pairs, arrays, objects, NaN / Infinity / -Infinity), plus the decoder that
     inverts [Codec.qp_simple].  Executable definitions only; used by the correspondence
     runners as the instance of the [loads] oracle of the store theorems (whose hypothesis
     [loads (dumps j) = Some j] is evaluated on every generated case, see Run/RunC07.v). *)
@@ -34,50 +34,55 @@ Definition parse_hex4 (s : str) : option (N * str) :=
 Definition is_high (n : N) : bool := (55296 <=? n) && (n <=? 56319).
 Definition is_low (n : N) : bool := (56320 <=? n) && (n <=? 57343).
 
-(** the characters of a string literal after its opening quote: (content, rest after the closing quote) *)
+Definition consr (c : N) (o : option (str * str)) : option (str * str) :=
+  match o with Some (cs, r') => Some (c :: cs, r') | None => None end.
+
+(** the characters of a string literal after its opening quote: (content, rest after the closing quote).
+    (Dispatch on characters is written with [=?] tests rather than literal patterns, so that the
+    facts in JsonFacts.v can reason about a symbolic character.) *)
 Fixpoint parse_chars (fuel : nat) (s : str) : option (str * str) :=
   match fuel with
   | O => None
   | S f =>
       match s with
       | [] => None
-      | 34 :: r => Some ([], r)
-      | 92 :: e :: r =>
-          let simple c := match parse_chars f r with Some (cs, r') => Some (c :: cs, r') | None => None end in
-          if e =? 34 then simple 34
-          else if e =? 92 then simple 92
-          else if e =? 47 then simple 47
-          else if e =? 98 then simple 8
-          else if e =? 102 then simple 12
-          else if e =? 110 then simple 10
-          else if e =? 114 then simple 13
-          else if e =? 116 then simple 9
-          else if e =? 117 then
-            match parse_hex4 r with
-            | None => None
-            | Some (n, r1) =>
-                (* json.decoder.py_scanstring: a high surrogate followed by an escaped low one is joined *)
-                let lone := match parse_chars f r1 with Some (cs, r') => Some (n :: cs, r') | None => None end in
-                if is_high n then
-                  match r1 with
-                  | 92 :: 117 :: r2 =>
-                      match parse_hex4 r2 with
-                      | Some (m, r3) =>
-                          if is_low m then
-                            match parse_chars f r3 with
-                            | Some (cs, r') => Some (65536 + (n - 55296) * 1024 + (m - 56320) :: cs, r')
-                            | None => None
-                            end
-                          else lone
-                      | None => lone
-                      end
-                  | _ => lone
+      | c :: r =>
+          if c =? 34 then Some ([], r)
+          else if c =? 92 then
+            match r with
+            | [] => None
+            | e :: r =>
+                if e =? 34 then consr 34 (parse_chars f r)
+                else if e =? 92 then consr 92 (parse_chars f r)
+                else if e =? 47 then consr 47 (parse_chars f r)
+                else if e =? 98 then consr 8 (parse_chars f r)
+                else if e =? 102 then consr 12 (parse_chars f r)
+                else if e =? 110 then consr 10 (parse_chars f r)
+                else if e =? 114 then consr 13 (parse_chars f r)
+                else if e =? 116 then consr 9 (parse_chars f r)
+                else if e =? 117 then
+                  match parse_hex4 r with
+                  | None => None
+                  | Some (n, r1) =>
+                      (* json.decoder.py_scanstring: a high surrogate followed by an escaped low one is joined *)
+                      if is_high n then
+                        match r1 with
+                        | b :: u :: r2 =>
+                            if (b =? 92) && (u =? 117) then
+                              match parse_hex4 r2 with
+                              | Some (m, r3) =>
+                                  if is_low m then consr (65536 + (n - 55296) * 1024 + (m - 56320)) (parse_chars f r3)
+                                  else consr n (parse_chars f r1)
+                              | None => consr n (parse_chars f r1)
+                              end
+                            else consr n (parse_chars f r1)
+                        | _ => consr n (parse_chars f r1)
+                        end
+                      else consr n (parse_chars f r1)
                   end
-                else lone
+                else None
             end
-          else None
-      | [92] => None
-      | c :: r => match parse_chars f r with Some (cs, r') => Some (c :: cs, r') | None => None end
+          else consr c (parse_chars f r)
       end
   end.
 
@@ -98,10 +103,19 @@ Definition parse_number (tok : str) : option json :=
   if existsb (fun c => (c =? 46) || (c =? 101) || (c =? 69)) tok then
     match tok with [] => None | _ => Some (JFloat tok) end       (* a float literal: kept as its text *)
   else match tok with
-       | 45 :: (_ :: _) as ds => option_map (fun n => JInt (- Z.of_N n)%Z) (digits_val 0 ds)
-       | _ :: _ => option_map (fun n => JInt (Z.of_N n)) (digits_val 0 tok)
        | [] => None
+       | c :: ds =>
+           if (c =? 45) && match ds with [] => false | _ => true end
+           then option_map (fun n => JInt (- Z.of_N n)%Z) (digits_val 0 ds)
+           else option_map (fun n => JInt (Z.of_N n)) (digits_val 0 tok)
        end.
+
+(** json.scanner: after the number pattern fails, the three non-finite float literals *)
+Definition parse_special (s : str) : option (json * str) :=
+  if prefixb (U"NaN") s then Some (JFloat (U"NaN"), skipn 3 s)
+  else if prefixb (U"Infinity") s then Some (JFloat (U"Infinity"), skipn 8 s)
+  else if prefixb (U"-Infinity") s then Some (JFloat (U"-Infinity"), skipn 9 s)
+  else None.
 
 Section Loops.
   Variable pv : str -> option (json * str).      (* the value parser one level down *)
@@ -114,9 +128,11 @@ Section Loops.
         | None => None
         | Some (x, r) =>
             match skip_ws r with
-            | 44 :: r' => match elems_loop n' r' with Some (xs, r'') => Some (x :: xs, r'') | None => None end
-            | 93 :: r' => Some ([x], r')
-            | _ => None
+            | c :: r' =>
+                if c =? 44 then match elems_loop n' r' with Some (xs, r'') => Some (x :: xs, r'') | None => None end
+                else if c =? 93 then Some ([x], r')
+                else None
+            | [] => None
             end
         end
     end.
@@ -126,26 +142,32 @@ Section Loops.
     | O => None
     | S n' =>
         match skip_ws s with
-        | 34 :: r0 =>
-            match parse_chars (S (length r0)) r0 with
-            | None => None
-            | Some (k, r1) =>
-                match skip_ws r1 with
-                | 58 :: r2 =>
-                    match pv r2 with
-                    | None => None
-                    | Some (x, r3) =>
-                        match skip_ws r3 with
-                        | 44 :: r' => match members_loop n' r' with
-                                      | Some (xs, r'') => Some ((k, x) :: xs, r'') | None => None end
-                        | 125 :: r' => Some ([(k, x)], r')
-                        | _ => None
+        | q :: r0 =>
+            if q =? 34 then
+              match parse_chars (S (length r0)) r0 with
+              | None => None
+              | Some (k, r1) =>
+                  match skip_ws r1 with
+                  | co :: r2 =>
+                      if co =? 58 then
+                        match pv r2 with
+                        | None => None
+                        | Some (x, r3) =>
+                            match skip_ws r3 with
+                            | c :: r' =>
+                                if c =? 44 then match members_loop n' r' with
+                                                | Some (xs, r'') => Some ((k, x) :: xs, r'') | None => None end
+                                else if c =? 125 then Some ([(k, x)], r')
+                                else None
+                            | [] => None
+                            end
                         end
-                    end
-                | _ => None
-                end
-            end
-        | _ => None
+                      else None
+                  | [] => None
+                  end
+              end
+            else None
+        | [] => None
         end
     end.
 End Loops.
@@ -155,22 +177,32 @@ Fixpoint parse_value (fuel : nat) (s : str) : option (json * str) :=
   | O => None
   | S f =>
       match skip_ws s with
-      | 110 :: 117 :: 108 :: 108 :: r => Some (JNull, r)
-      | 116 :: 114 :: 117 :: 101 :: r => Some (JBool true, r)
-      | 102 :: 97 :: 108 :: 115 :: 101 :: r => Some (JBool false, r)
-      | 34 :: r => match parse_chars (S (length r)) r with Some (cs, r') => Some (JStr cs, r') | None => None end
-      | 91 :: r =>
-          match skip_ws r with
-          | 93 :: r' => Some (JArr [], r')
-          | r1 => match elems_loop (parse_value f) f r1 with Some (xs, r') => Some (JArr xs, r') | None => None end
-          end
-      | 123 :: r =>
-          match skip_ws r with
-          | 125 :: r' => Some (JObj [], r')
-          | r1 => match members_loop (parse_value f) f r1 with Some (xs, r') => Some (JObj xs, r') | None => None end
-          end
-      | s1 => let '(tok, r) := span_num s1 in
-              match parse_number tok with Some j => Some (j, r) | None => None end
+      | [] => None
+      | (c :: r) as s1 =>
+          if c =? 34 then
+            match parse_chars (S (length r)) r with Some (cs, r') => Some (JStr cs, r') | None => None end
+          else if c =? 91 then
+            match skip_ws r with
+            | [] => None
+            | (c1 :: r') as r1 =>
+                if c1 =? 93 then Some (JArr [], r')
+                else match elems_loop (parse_value f) f r1 with Some (xs, r'') => Some (JArr xs, r'') | None => None end
+            end
+          else if c =? 123 then
+            match skip_ws r with
+            | [] => None
+            | (c1 :: r') as r1 =>
+                if c1 =? 125 then Some (JObj [], r')
+                else match members_loop (parse_value f) f r1 with Some (xs, r'') => Some (JObj xs, r'') | None => None end
+            end
+          else if prefixb (U"null") s1 then Some (JNull, skipn 4 s1)
+          else if prefixb (U"true") s1 then Some (JBool true, skipn 4 s1)
+          else if prefixb (U"false") s1 then Some (JBool false, skipn 5 s1)
+          else let '(tok, r') := span_num s1 in
+               match parse_number tok with
+               | Some j => Some (j, r')
+               | None => parse_special s1
+               end
       end
   end.
 
@@ -187,8 +219,13 @@ Definition loads (s : str) : option json :=
 Definition hexval_u (c : N) : N := if (c <? 58) then c - 48 else c - 55.
 Fixpoint qp_dec_simple (s : str) : list N :=
   match s with
-  | 61 :: a :: b :: r => (hexval_u a * 16 + hexval_u b) :: qp_dec_simple r
-  | c :: r => c :: qp_dec_simple r
+  | c :: r =>
+      if c =? 61 then
+        match r with
+        | a :: b :: r' => (hexval_u a * 16 + hexval_u b) :: qp_dec_simple r'
+        | _ => c :: qp_dec_simple r
+        end
+      else c :: qp_dec_simple r
   | [] => []
   end.
 
